@@ -187,7 +187,7 @@ def gen_tlc_cases(work, tier, log):
             dict(NH=2, NK=3, MaxItems=2, MaxFiles=2, Intervals='{64, 329}', INVS='Gen', GenMode='TRUE')]
     if tier == 'thorough':
         cfgs.append(dict(NH=2, NK=3, MaxItems=3, MaxFiles=2, Intervals='{64}', INVS='Gen', GenMode='TRUE'))
-        cfgs.append(dict(NH=3, NK=2, MaxItems=2, MaxFiles=3, Intervals='{64}', INVS='Gen', GenMode='TRUE'))
+        cfgs.append(dict(NH=2, NK=2, MaxItems=2, MaxFiles=3, Intervals='{64}', INVS='Gen', GenMode='TRUE'))
 
     def one(ic):
         i, c = ic
@@ -350,12 +350,15 @@ def random_case(rng, cid, size):
 def gen_cases(tier, seed, work, log):
     rng = random.Random(seed * 7919 + (1 if tier == 'quick' else 2))
     abstract = gen_tlc_cases(work, tier, log)
-    ntlc = {'quick': 260, 'thorough': len(abstract)}[tier]
-    pick = abstract if ntlc >= len(abstract) else rng.sample(abstract, ntlc)
+    if tier == 'quick':
+        pick = rng.sample(abstract, min(260, len(abstract)))
+    else:                             # every case of the two small configurations, a seeded sample of the larger ones
+        pick = []
+        for cfg in sorted({a['cfg'] for a in abstract}):
+            grp = [a for a in abstract if a['cfg'] == cfg]
+            pick += grp if cfg < 2 else rng.sample(grp, min(3500, len(grp)))
     cases = [materialise(rng, ac, 't%d' % i) for i, ac in enumerate(pick)]
-    if tier == 'thorough':            # a second materialisation of every abstract case (other hashes/keys/intervals)
-        cases += [materialise(rng, ac, 'u%d' % i) for i, ac in enumerate(pick)]
-    plan = {'quick': dict(small=150, medium=30, large=2), 'thorough': dict(small=2500, medium=500, large=36)}[tier]
+    plan = {'quick': dict(small=150, medium=30, large=2), 'thorough': dict(small=2500, medium=500, large=24)}[tier]
     i = 0
     for size in ('large', 'medium', 'small'):
         for _ in range(plan[size]):
